@@ -595,9 +595,25 @@ pub fn generate(rng: &mut Rng, tier: Tier) -> Case {
                 ..Default::default()
             });
         }
+        6 if !units.iter().any(|u| u.verbose.is_some()) => {
+            // (not with the verbose option: the new input is echoed as well)
+            // the shell's own input is replaced: what follows in the old input
+            // is never read, the commands of the new file run instead
+            units.push(Unit {
+                data: vec![1, 2],
+                lines: vec!["exec </work/inc2.sh".into(), "echo NEVER".into(), "echo NEVER2".into()],
+                out: vec!["IB inc2".into(), "IB done".into()],
+                tells: vec![],
+                status: Some(0),
+                reads_stdin: true,
+                exits: true,
+                error: false,
+                ..Default::default()
+            });
+        }
         2 => {
             let st = *g.rng.pick(&[0u8, 3, 9]);
-            let mut lines = vec![format!("exit {st}")];
+            let mut lines = vec![if g.rng.bool() { format!("exit {st}") } else { format!("exit {st}; echo NEVER0") }];
             lines.push("echo NEVER".into());
             if g.rng.bool() {
                 lines.push(")".into());
@@ -831,6 +847,7 @@ fn spec_of(exp: &Expect, variant: Variant) -> ScriptSpec {
                 b"alias ia='echo IA'\nia inc\nread q r\necho \"[$q][$r]\"\n".to_vec(),
                 0o644,
             ),
+            ("/work/inc2.sh".into(), b"echo IB inc2\necho IB done\n".to_vec(), 0o644),
         ],
         ..Default::default()
     }
@@ -1208,7 +1225,8 @@ impl Prop for C18 {
             Tier::Quick => 2,
             Tier::Thorough => 6,
         };
-        if !case.trap && exp.script.len() > 2 {
+        let replaces_input = case.units.iter().any(|u| u.lines.first().is_some_and(|l| l.starts_with("exec <")));
+        if !case.trap && exp.script.len() > 2 && !replaces_input {
             for j in 0..cut_runs {
                 let mut cut = case.clone();
                 cut.cut = Some(rng.range(1, exp.script.len() as u32 - 1));
@@ -1226,7 +1244,7 @@ impl Prop for C18 {
             }
         }
         // a disk error: the k-th read of the input file fails with EIO
-        if !case.trap {
+        if !case.trap && !replaces_input {
             let reads = {
                 let (obs, _) = run_one(&case, Variant::FileStdin, &SimConfig::default(), Decider::record(Rng::new(1)));
                 obs.file_io.1
